@@ -16,7 +16,7 @@ LEVEL = "exploration"
 DECIDING = ["C12.transition_matrix"]
 RULE = ("every trajectory over the alphabet {0,1,2,NaN} of length 0..Lmax (quick Lmax=5, thorough Lmax=7), every lag "
         "tau in 1..L+1, both window modes (half of the trajectories through ONE live MSM object asked repeatedly), total_num_cells=4 (cell 3 never visited), plus seeded random long "
-        "trajectories (L<=2000, up to 3e6 cells incl. the high end of the index range, NaN runs, tau given as int/float/str) and one trajectory of 1.0-1.3e5 frames per run; a case is the triple "
+        "trajectories (L<=2000, up to 3e6 cells incl. the high end of the index range, NaN runs, tau given as int/float/str) one trajectory of 1.0-1.3e5 frames per run and one beyond 1e6 frames (thorough 2.3e6, lags 3..13 that do not divide round block sizes); cell counts at powers of two and their neighbours (16..65537) with the last cell visited; trajectories stored as float64/float32/float16/int64/int32/int16/uint8/uint16/uint32 arrays, views and lists; a case is the triple "
         "(trajectory, tau, mode); non-trivial = at least one counted window and >=2 distinct visited cells; "
         "distinct by digest of the triple")
 ASSUMPTIONS = ["cell indices in the trajectory are < total_num_cells (larger ones are outside the property)",
@@ -135,16 +135,26 @@ def drive(MSM, seq, tau, noncorr, n, check_reverse=False, obj=None):
     arr = np.array(seq, dtype=float)
     # the same trajectory in the forms callers hand over: float64 array, Python list, float32 array, integer array (if fully assigned),
     # a non-contiguous view
-    form = (len(seq) * 7 + int(float(tau)) + (3 if noncorr else 0)) % 6
+    form = (len(seq) * 7 + int(float(tau)) + (3 if noncorr else 0)) % 10
     if obj is None:
+        whole = len(seq) > 0 and not np.isnan(arr).any()
         if form == 1:
             arr = [float(x) for x in seq]
-        elif form == 2:
+        elif form == 2 and n <= 2 ** 24:
             arr = arr.astype(np.float32)
-        elif form == 3 and len(seq) and not np.isnan(arr).any():
+        elif form == 3 and whole:
             arr = arr.astype(np.int64)
         elif form == 4 and len(seq):
             arr = np.repeat(arr, 2)[::2]
+        elif form == 6 and whole:      # the narrowest unsigned type that holds every cell index
+            arr = arr.astype(np.uint8 if n <= 2 ** 8 else np.uint16 if n <= 2 ** 16 else np.uint32)
+        elif form == 7 and whole:
+            arr = arr.astype(np.int16 if n <= 2 ** 15 else np.int32)
+        elif form == 8 and n <= 2 ** 11:
+            arr = arr.astype(np.float16)     # integers up to 2048 are exact
+        elif form == 9 and whole:
+            arr = [int(x) for x in seq]
+        REC.classes[f"trajectory_form={type(arr).__name__}:{getattr(arr, 'dtype', type(arr[0]).__name__ if len(arr) else '-')}"] += 1
     try:
         # obj given: the same live MSM object is asked again (other mode / other tau) - results must not depend on earlier requests
         out = (obj if obj is not None else MSM(arr, total_num_cells=n)).get_one_tau_transition_matrix(tau, noncorrelated_windows=noncorr)
@@ -194,17 +204,39 @@ def run_very_long(MSM, spec):
             drive(MSM, seq.tolist(), tau, noncorr, n, check_reverse=False)
 
 
+def run_million(MSM, spec):
+    """one trajectory beyond 1e6 frames (thorough 2.3e6): block-wise implementations change behaviour only there. The case records how the
+    trajectory is regenerated, not its frames"""
+    rng = random.Random(spec["rseed"])
+    nprng = np.random.default_rng(spec["rseed"])
+    L = spec["L"] + rng.randint(1000, 90000)
+    n = 20
+    seq = nprng.integers(0, n, size=L).astype(float)
+    seq[nprng.random(L) < 0.01] = np.nan
+    for tau, noncorr in spec["runs"]:
+        REC.begin_case({"million": True, "rseed": spec["rseed"], "L": L, "tau": tau, "noncorr": noncorr, "n": n}, cls=[f"L>1e6 noncorr={noncorr}"])
+        try:
+            MSM(seq, total_num_cells=n).get_one_tau_transition_matrix(tau, noncorrelated_windows=noncorr)
+            REC.nontrivial_case()
+        except Exception as e:
+            REC.crashed("C12.call_raised", e)
+
+
 def run_random(MSM, spec):
     rng = random.Random(spec["rseed"])
     for it in range(spec["count"]):
-        n = rng.choice([1, 2, 3, 5, 8, 20, 50, 50, 70000, 100000, 3 * 10 ** 6])  # real full grids reach 1e5..1e6 cells
+        # real full grids reach 1e5..1e6 cells; powers of two and their neighbours are where index types and markers change
+        n = rng.choice([1, 2, 3, 5, 8, 20, 50, 50, 70000, 100000, 3 * 10 ** 6,
+                        rng.choice([16, 17, 127, 128, 255, 256, 257, 2047, 2048, 4096, 4097, 5000, 32767, 32768, 65535, 65536, 65537])])
         L = rng.choice([1, 2, 3, 10, 50, 200, 600, 2000])
         if n > 3000:
             L = min(L, 200)
         p_nan = rng.choice([0.0, 0.05, 0.3, 0.9])
         visited_cells = rng.sample(range(n), rng.randint(1, min(n, 50)))
         if n > 3000 and rng.random() < 0.7:
-            visited_cells = [n - 1 - c % 5000 for c in visited_cells]  # the high end of the index range
+            visited_cells = [n - 1 - c % 3000 for c in visited_cells]  # the high end of the index range
+        if rng.random() < 0.5:
+            visited_cells = sorted(set(visited_cells) | {n - 1, 0})     # the last and the first cell themselves
         seq = []
         while len(seq) < L:
             if rng.random() < p_nan:
@@ -244,6 +276,11 @@ def shards(tier, seed):
     per = 60 if tier == "quick" else 125
     out += [{"kind": "random", "rseed": seed * 1000 + i, "count": per} for i in range(nr)]
     out += [{"kind": "very_long", "rseed": seed * 1000 + 700 + i} for i in range(1 if tier == "quick" else 4)]
+    if tier == "quick":
+        out.append({"kind": "million", "rseed": seed * 1000 + 800, "L": 1000000, "runs": [[7, True], [11, True]]})
+    else:
+        out += [{"kind": "million", "rseed": seed * 1000 + 800 + i, "L": 2300000, "runs": runs}
+                for i, runs in enumerate(([[7, True], [3, True]], [[11, True], [13, True]], [[9, False]]))]
     return out
 
 
@@ -253,12 +290,16 @@ def run_shard(spec):
         run_exhaustive(MSM, spec)
     elif spec["kind"] == "very_long":
         run_very_long(MSM, spec)
+    elif spec["kind"] == "million":
+        run_million(MSM, spec)
     else:
         run_random(MSM, spec)
 
 
 def replay(case):
     MSM = install()
+    if case.get("million"):
+        return run_million(MSM, {"rseed": case["rseed"], "L": case["L"] - 1, "runs": [[case["tau"], case["noncorr"]]]})
     seq = case["trajectory"]
     seq = [float("nan") if x == "nan" else float(x) for x in seq]
     drive(MSM, seq, case["tau"], case["noncorr"], case["n"], check_reverse=True)
